@@ -122,7 +122,7 @@ fn new_world(dir: &Path, n: usize, admin_mask: u64) -> (W, St) {
     let keys: Vec<Keys> = (0..n).map(|_| Keys::generate()).collect();
     let mut st = St { dir: dir.into(), n, admin_mask, keys, kps: vec![], rumors: vec![], welcomes: BTreeMap::new(), groups_created: 0 };
     let mut w: W = World { clients: vec![], gid: GroupId::from_slice(&[0u8; 32]), events: BTreeMap::new(), sigma: BTreeMap::new(), msg_ids: BTreeMap::new(),
-        admin_mask: admin_mask | 1, base_ts: nostr::Timestamp::now().as_secs() - 5000, leave_ev: BTreeMap::new(), retention: 5, reopen: None, joined: vec![true; 8], welcomes: BTreeMap::new(), ret_of: BTreeMap::new() };
+        admin_mask: admin_mask | 1, base_ts: nostr::Timestamp::now().as_secs() - 5000, leave_ev: BTreeMap::new(), retention: 5, reopen: None, joined: vec![true; 8], welcomes: BTreeMap::new(), ret_of: BTreeMap::new(), rm_prop_ev: BTreeMap::new() };
     open_all(&mut w, &st);
     for i in 1..n {
         let (c, tags, _) = w.clients[i].mdk.create_key_package_for_event(&st.keys[i].public_key(), vec![relay("wss://test.relay")]).unwrap();
